@@ -165,7 +165,7 @@ def unshrink(self, antimask, shape=()):
 
     # If we found a cached value, return it
     if unshrunk is not None:
-        return unshrunk.mask_where(np.logical_not(antimask))
+        return _masked_outside(unshrunk, antimask)
 
     # Create the new data array
     new_shape = self._shape_[:-1] + antimask.shape
